@@ -76,6 +76,8 @@ theorem drainLoop_fate (w : Nat) : ∀ (q : List Entry) (c : Core), w < c.conns.
     intro c hw
     simp only [drainLoop]
     split
+    · exact ⟨[], by simp, fun x hx => .inl ⟨x, hx, rfl⟩⟩
+    split
     · obtain ⟨evs, h1, h2⟩ := ih (c.emit (.qdrop e.sid c.now .expired)) hw
       refine ⟨[.qdrop e.sid c.now .expired] ++ evs, by rw [h1]; simp [Core.emit], ?_⟩
       intro x hx
